@@ -78,12 +78,13 @@ def parse_fields(line, keys):
 REFK = ("na", "alpha", "res", "chosen", "feasible", "x", "H1", "residual")
 OUTK = ("ret", "x", "H1", "residual", "calcs", "consumed", "steps", "drift", "trace")
 
-def run_sched_cases(exe, lines, timeout_each=20.0):
+def run_sched_cases(exe, lines, timeout_each=20.0, max_hangs=3):
     """runs case lines through `harness sched`; restarts after a process-ending failure (DEADLOCK etc.) or a hang.
     returns dict id -> {"ref":..., "out":..., "fail": str|None, "hang": bool}"""
     res = {}
     todo = list(lines)
-    while todo:
+    hangs = 0
+    while todo and hangs < max_hangs:           # a tree that hangs is reported after a few timeouts, not after hundreds
         ids = [l.split()[1] for l in todo]
         try:
             p = subprocess.run([exe, "sched"], input="\n".join(todo) + "\n", stdout=subprocess.PIPE, stderr=subprocess.PIPE,
@@ -107,6 +108,7 @@ def run_sched_cases(exe, lines, timeout_each=20.0):
             prev_failed = k > 0 and res[ids[k - 1]]["fail"] and "out" not in res[ids[k - 1]]
             if hung:
                 res.setdefault(ids[k], {"fail": None, "hang": False})["hang"] = True
+                hangs += 1
                 k += 1
             elif not prev_failed:
                 res.setdefault(ids[k], {"fail": None, "hang": False})["fail"] = "CRASH harness ended without an outcome for this case"
@@ -287,14 +289,14 @@ def check_thread_counts(exe, rng, nprob, nfit, out, cov, threads=THREADS):
     for k in range(nprob * 12):
         n = 4 + rng.below(14); m = n + 2 + rng.below(6)
         cand.append("case q%d n %d m %d seed %d corr %.2f" % (k, n, m, rng.below(1 << 30), rng.below(4) * 0.3))
-    so, se, hung = run_end_to_end(exe, "nnls", [c + " threads 1" for c in cand], 120)
+    so, se, hung = run_end_to_end(exe, "nnls", [c + " threads 1" for c in cand], 60)
     pre, cur = parse_e2e(so, "nnlsbegin", "nnlsend")
     if hung:
         out.violation("C12:nnls:hang", "nnls_normal_block3 did not return with 1 thread", {"kind": "nnls", "line": [c for c in cand if c.split()[1] == (cur or ("?",))[0]][:1], "threads": 1})
     hit = [c for c in cand if pre.get(c.split()[1]) and pre[c.split()[1]][0][1] > 0]
     sel = hit[:nprob] + [c for c in cand if c not in hit][:max(2, nprob // 10)]
     tl = " threads " + " ".join(map(str, threads))
-    so, se, hung = run_end_to_end(exe, "nnls", [c + tl for c in sel], 300)
+    so, se, hung = run_end_to_end(exe, "nnls", [c + tl for c in sel], 150)
     got, cur = parse_e2e(so, "nnlsbegin", "nnlsend")
     if hung:
         line = [c for c in sel if cur and c.split()[1] == cur[0]]
@@ -313,7 +315,9 @@ def check_thread_counts(exe, rng, nprob, nfit, out, cov, threads=THREADS):
         fits.append("case f%d dim %d ns %d nk %d order %d mono %d shape %d noise %d" % (k, dim, 24 if dim == 1 else 12, rng.choice([8, 10, 12]), rng.choice([2, 3]),
                     rng.below(dim), rng.below(4), rng.below(1000)))
     fits.append("case fk dim 2 ns 14 nk 8 order 3 mono 0 shape 0 noise 44")     # known to reach walk_descents
-    so, se, hung = run_end_to_end(exe, "fit", [c + tl for c in fits], 600)
+    if hung:
+        fits = fits[-1:]                     # the solver already hangs: one fit is enough to show it end to end
+    so, se, hung = run_end_to_end(exe, "fit", [c + tl for c in fits], 240 if len(fits) > 1 else 40)
     gotf, cur = parse_e2e(so, "fitbegin", "fitend")
     if hung:
         line = [c for c in fits if cur and c.split()[1] == cur[0]]
